@@ -72,9 +72,12 @@ def fanHandler : Handler FS where
     | f :: _ => [s!"prop isolation=FAIL {f}"]
 
 /-- `c06-graph`: pipelines are announced leaves first.
-`op pipe id=<name> procs=<bits> exps=<bits of plain exporters> conn=-|<base>:<next1>,<next2>` → `obs cap <b>`;
-a connector in exporter position contributes `aggregateCap base (caps of its next pipelines)`.
-Exporter order inside the fan-out is irrelevant (`C06_fanCap_all`). -/
+`op pipe id=<name> procs=<bits> exps=<bits of plain exporters> conn=-|<base>:<next1>,<next2>[;<base>:<next>…]` → `obs cap <b>`;
+every connector in exporter position contributes `aggregateCap base (caps of its next pipelines)`.
+Exporter order inside the fan-out is irrelevant (`C06_fanCap_all`).
+`op hop caps=<bits> ro=<b>`: one fan-out call (receiver or connector → pipelines, or pipeline → exporters and connectors) with the
+consumers in a canonical (name) order → `obs hop ro=<bits seen at call> origmut=<n>`: the order-independent summary
+(`C06_seen_ro`, `C06_origMut`, `C06_summary_perm`). -/
 def graphHandler : Handler (List (String × Bool)) where
   init := []
   onOp := fun known toks =>
@@ -82,21 +85,27 @@ def graphHandler : Handler (List (String × Bool)) where
     | "pipe" :: rest =>
       match kv rest "id", (kv rest "procs").bind parseBits, (kv rest "exps").bind parseBits, kv rest "conn" with
       | some id, some p, some e, some conn =>
-        let connCap : Option (List Bool) :=
-          if conn = "-" then some [] else
-          match conn.splitOn ":" with
+        let one (c : String) : Option Bool :=
+          match c.splitOn ":" with
           | [b, nx] =>
             let names := (nx.splitOn ",").filter (· ≠ "")
-            match names.mapM (fun n => known.lookup n) with
-            | some caps => some [aggregateCap (b = "1") caps]
-            | none => none
+            (names.mapM (fun n => known.lookup n)).map (fun caps => aggregateCap (b = "1") caps)
           | _ => none
+        let connCap : Option (List Bool) :=
+          if conn = "-" then some [] else ((conn.splitOn ";").filter (· ≠ "")).mapM one
         match connCap with
         | some cc =>
           let cap := pipelineCap p (e ++ cc)
           ((id, cap) :: known, [s!"obs cap {b01 cap}"])
         | none => (known, ["obs bad-op"])
       | _, _, _, _ => (known, ["obs bad-op"])
+    | "hop" :: rest =>
+      match (kv rest "caps").bind parseBits, kvNat rest "ro" with
+      | some caps, some ro =>
+        let inputRO := ro = 1
+        let flags := (List.range caps.length).map (fun c => b01 (seenRO caps inputRO c))
+        (known, [s!"obs hop ro={if flags.isEmpty then "-" else String.join flags} origmut={origMut caps inputRO}"])
+      | _, _ => (known, ["obs bad-op"])
     | _ => (known, ["obs bad-op"])
 
 /-- `c06-exp`: `op exp sig=… declared=-|0|1 batching=0|1 opts=…` → `obs cap <b>` -/
